@@ -3,7 +3,7 @@
 # applies the patch to a scratch copy of /repo (never to /repo) and runs the property checks on it
 patch=$1; shift
 tmp=$(mktemp -d /var/tmp/gpv.XXXXXX)
-rsync -a --exclude .git /repo/ $tmp/repo/
+if [ -n "$FROM_HEAD" ]; then mkdir -p $tmp/repo && git -C /repo archive HEAD | tar -x -C $tmp/repo; else rsync -a --exclude .git /repo/ $tmp/repo/; fi
 if ! (cd $tmp/repo && patch -p1 -s < $patch); then echo "PATCH-FAILED $patch"; rm -rf $tmp; exit 3; fi
 rc=0
 for prop in "$@"; do
